@@ -13,21 +13,15 @@ Definition mk_ns (m : mode) : pa :=
 Definition mk_wl (m : mode) (ports : list (N * mode)) : pa :=
   {| pa_name := 1; pa_ns := 1; pa_time := 300; pa_sel := SelLabels w_lbl; pa_mtls := m; pa_ports := ports |}.
 
-(* K2: mesh STRICT + workload PERMISSIVE + port 8080 STRICT: no policy is produced, 8080 accepts plaintext *)
+(* former K2 (repaired in /repo 06bf447): mesh STRICT + workload PERMISSIVE + port 8080 STRICT now yields the
+   DENY rule for 8080 and the port rejects plaintext *)
 Definition k2_world : list pa := [mk_root MStrict; mk_wl MPermissive [(8080%N, MStrict)]].
-
-Lemma k2_converter_returns_nil :
-  convert_peer_authentication 0 (mk_wl MPermissive [(8080%N, MStrict)]) None (Some (mk_root MStrict)) = None.
-Proof. reflexivity. Qed.
-
-Lemma k2_without_mesh_policy_is_right :
-  exists z, convert_peer_authentication 0 (mk_wl MPermissive [(8080%N, MStrict)]) None None = Some z /\
-            authz_matches false 8080 z = true /\ authz_matches false 80 z = false.
-Proof. eexists. split; [reflexivity|split; reflexivity]. Qed.
-
-Lemma k2_refutes :
-  effective_mode 0 k2_world 1 w_lbl 8080 = MStrict /\ ambient_denies 0 k2_world 1 w_lbl false 8080 = false.
-Proof. split; reflexivity. Qed.
+Lemma k2_repaired :
+  (exists z, convert_peer_authentication 0 (mk_wl MPermissive [(8080%N, MStrict)]) None (Some (mk_root MStrict)) = Some z /\
+             authz_matches false 8080 z = true /\ authz_matches false 80 z = false) /\
+  effective_mode 0 k2_world 1 w_lbl 8080 = MStrict /\ ambient_denies 0 k2_world 1 w_lbl false 8080 = true /\
+  ambient_denies 0 k2_world 1 w_lbl false 80 = false.
+Proof. split; [eexists; split; [reflexivity|split; reflexivity]|repeat split; reflexivity]. Qed.
 
 (* mesh STRICT + workload UNSET + port 8080 DISABLE: the static strict policy stays attached, 8080 rejects plaintext *)
 Definition dis_world : list pa := [mk_root MStrict; mk_wl MUnset [(8080%N, MDisable)]].
@@ -53,7 +47,7 @@ Lemma ambient_strict_ports_refuted :
   exists root all wl_ns labels port,
     ambient_denies root all wl_ns labels false port <>
     mode_eqb (effective_mode root all wl_ns labels port) MStrict.
-Proof. exists 0%N, k2_world, 1%N, w_lbl, 8080%N. vm_compute. discriminate. Qed.
+Proof. exists 0%N, unsetns_world, 1%N, w_lbl, 80%N. vm_compute. discriminate. Qed.
 
 (* ------------------------------------------------------------------ what does hold, on a bounded domain *)
 
@@ -82,15 +76,13 @@ Definition omode (o : option mode) : mode := match o with Some m => m | None => 
 Definition has_mode (f : mode -> bool) (ports : list (N * mode)) : bool := existsb (fun pm => f (snd pm)) ports.
 Definition parent_mode (rm nm : option mode) : mode :=
   if is_unset (omode nm) then (if is_unset (omode rm) then MPermissive else omode rm) else omode nm.
-Definition defect_k2 (rm nm : option mode) (wm : mode) (ports : list (N * mode)) : bool :=
-  (is_permissive wm || is_disable wm) && has_mode is_strict ports && is_strict (omode rm) && is_unset (omode nm).
 Definition defect_disable_port (rm nm : option mode) (wm : mode) (ports : list (N * mode)) : bool :=
   is_unset wm && is_strict (parent_mode rm nm) && has_mode is_disable ports && negb (has_mode is_permissive ports).
 Definition defect_unset_ns (rm nm : option mode) (wm : mode) (ports : list (N * mode)) : bool :=
   is_unset wm && (match nm with Some MUnset => true | _ => false end) && is_strict (omode rm) &&
   has_mode is_permissive ports.
 Definition defect (rm nm : option mode) (wm : mode) (ports : list (N * mode)) : bool :=
-  defect_k2 rm nm wm ports || defect_disable_port rm nm wm ports || defect_unset_ns rm nm wm ports.
+  defect_disable_port rm nm wm ports || defect_unset_ns rm nm wm ports.
 
 Definition ambient_agrees (rm nm : option mode) (wm : mode) (ports : list (N * mode)) (port : N) : bool :=
   let all := world3 rm nm wm ports in
